@@ -148,18 +148,19 @@ def pairwise(rng, factors=FACTORS, fixed=None):
             for b in factors[names[j]]:
                 need.add((i, a, j, b))
     rows = []
+    need = sorted(need, key=repr)      # deterministic order (set iteration depends on the hash seed)
     while need:
         best, best_gain = None, -1
         for _ in range(40):
             # seed the candidate with one uncovered pair
-            i, a, j, b = rng.choice(sorted(need, key=repr)) if rng.random() < 0.9 or best is None else next(iter(need))
+            i, a, j, b = rng.choice(need)
             row = {n: rng.choice(factors[n]) for n in names}
             row[names[i]], row[names[j]] = a, b
             gain = sum(1 for (p, x, q, y) in need if row[names[p]] == x and row[names[q]] == y)
             if gain > best_gain:
                 best, best_gain = row, gain
         rows.append(best)
-        need = {(p, x, q, y) for (p, x, q, y) in need if not (best[names[p]] == x and best[names[q]] == y)}
+        need = [(p, x, q, y) for (p, x, q, y) in need if not (best[names[p]] == x and best[names[q]] == y)]
     return rows
 
 
